@@ -165,6 +165,32 @@ CHECKS['C20'] = dict(
          ' Falsy invalid arguments; the empty set left by a rejected first use is never written; record order after a rejected call (F21 known finding for the first-use case).',
     note='A write that fails after the data-dependent set-up and is then repeated shares the carrier of F9 (known finding).')
 
+# obligations added after the third round of seeded changes (multi-step and two-site defects)
+_R3 = {
+    'C01': ' DLISFile.write wiring: the writer is built with the maximum the label declares (own label, label changed after construction), label first, records generator arguments.',
+    'C02': ' The declared length of the record sequence covers the records generated; a SizedGenerator is written in full whatever length (>= the records) it declares.',
+    'C03': ' A second generation of a frame\'s records with data of another dtype: declared representation code == dtype of the slots, rows those of the second data.',
+    'C04': ' Set names assigned / changed / removed after construction; two values given to a single-valued attribute (refused or encoded with count 2).',
+    'C05': ' Re-assignment after a first encoding with a value of another kind or multiplicity: bytes of a fresh object.',
+    'C06': ' OBNAME / OBJREF after rename or re-origin of the item; write_struct with the real memos on equal (==) values of different types / signs.',
+    'C07': ' References after rename / re-origin of the referenced item (memo guards on).',
+    'C08': ' Frames whose channel list repeats a name: refused or one slot per listed channel; second generation with another dtype.',
+    'C10': ' Float chunk sizes with zero decimal part (concrete floats, symbolic record and body lengths); declared-length independence of the write loop.',
+    'C11': ' Channel -> data set mapping read afresh for every generation (dataset_name re-assigned, same-named channel swapped in); dataset names distinct across channel sets; repeated channel names.',
+    'C12': ' Frames whose channel list repeats a name are refused; two values on a single-valued attribute.',
+    'C13': ' The near-uniform tolerance test in exact rational arithmetic (squares kept lazy) for 3..4 rows over all values of six integer dtypes; index channel with a cast dtype (metadata about the cast values).',
+    'C14': ' write_struct entry point with the real lru caches over ordered pairs of equal values; re-assignment after an encoding; re-pointed data sets.',
+    'C15': ' Declared record count >= records generated - 1 (the progress bar refuses values above its maximum when it redraws: slow = large records); DLISFile.write wiring of the label maximum.',
+    'C16': ' A record serialised once follows its object\'s current identity afterwards (rename, other origin, re-pointed).',
+    'C17': ' Frame set-up in the mode: non-uniform or single-row indexed frames are refused whether or not the user supplied a spacing.',
+    'C18': ' Dataset names are distinct across the channel sets of a logical file (one data dictionary per logical file).',
+    'C20': ' Rejected add_channel calls that carried valid data together with an invalid argument leave no data behind.',
+}
+for _k, _v in _R3.items():
+    CHECKS[_k]['text'] = CHECKS[_k]['text'] + _v
+CHECKS['C13']['note'] = CHECKS['C13']['note'].replace('The near-uniform float tolerance test is outside the claim: the stub returns an arbitrary boolean for it and nothing is asserted about the spacing in that branch;', 'The near-uniform tolerance is decided exactly except within |1 - d/median| in [0.031, 0.032] (float rounding; arbitrary outcome there);')
+CHECKS['C10']['note'] = CHECKS['C10']['note'].replace('Float chunk sizes and ', 'Symbolic float chunk sizes (two concrete ones are run) and ')
+
 NOT_APPLICABLE = []   # every property is decided by this technique; parts out of its reach are listed per check (level_note, DESIGN 4)
 
 NOTES = ('All checks: ./vcheck <id> [--tier quick|thorough]. Exit 0 = no violation among everything decided '
